@@ -1,1 +1,11 @@
-pub fn placeholder() {}
+//! agv-refgql: a deliberately boring reference model of GraphQL (October 2021)
+//! used as the oracle of the input-quantified checks. No dependency on
+//! async-graphql or pest.
+
+pub mod ast;
+pub mod coerce;
+pub mod exec;
+pub mod lex;
+pub mod parse;
+pub mod print;
+pub mod schema;
